@@ -6,7 +6,7 @@
 From DV Require Import Base.Prelude Model.NameM Model.TokM Model.RdTextM.
 From DV Require Import Proofs.NameValid Proofs.NameOrder Proofs.NameText.
 From DV Require Import Proofs.TokEsc Proofs.TokTxt Proofs.TokWords Proofs.TokDec Proofs.TokHex
-     Proofs.TokShape Proofs.TokGeneric Proofs.TokUtf8 Proofs.RdTextName Proofs.RdText Proofs.RdTextRel.
+     Proofs.TokShape Proofs.TokGeneric Proofs.TokUtf8 Proofs.RdTextName Proofs.RdTextAddr Proofs.RdText Proofs.RdTextRel.
 Open Scope Z_scope.
 
 (* ------------------------------------------------------------------ character-strings *)
@@ -114,6 +114,30 @@ Theorem hex_and_base64_alphabets_are_safe : forall d, all_bytes d = true ->
   forallb safe (hexlify d) = true /\ forallb safe (b64encode d) = true.
 Proof. intros d H. split; [apply (hexlify_safe d H)|apply (b64encode_safe d H)]. Qed.
 Print Assumptions hex_and_base64_alphabets_are_safe.
+
+(* ------------------------------------------------------------------ address text (dns/ipv4.py, dns/ipv6.py) *)
+
+(* inet_aton (inet_ntoa a) = a for every 4-octet / 16-octet string: dotted quad; for IPv6 the longest
+   zero run written as `::` (anywhere, including the all-zero address), the embedded IPv4 forms
+   `::a.b.c.d` and `::ffff:a.b.c.d`, leading zeros of each group stripped.  Used by A, AAAA, L32 (in the
+   schema below), APL, IPSECKEY/AMTRELAY gateways, WKS. *)
+Theorem ipv4_text_roundtrip : forall a, all_bytes a = true -> length a = 4%nat ->
+  exists t, ipv4_ntoa a = Ok t /\ ipv4_aton t = Ok a.
+Proof. exact ipv4_roundtrip. Qed.
+Print Assumptions ipv4_text_roundtrip.
+
+Theorem ipv6_text_roundtrip : forall a, all_bytes a = true -> length a = 16%nat ->
+  exists t, ipv6_ntoa a = Ok t /\ ipv6_aton t = Ok a.
+Proof. exact ipv6_roundtrip. Qed.
+Print Assumptions ipv6_text_roundtrip.
+
+Example ipv6_text_examples :
+  ipv6_ntoa [32; 1; 13; 184; 0; 0; 0; 0; 0; 0; 0; 0; 0; 0; 0; 1]
+    = Ok [50; 48; 48; 49; 58; 100; 98; 56; 58; 58; 49]                          (* 2001:db8::1 *)
+  /\ ipv6_ntoa [0; 0; 0; 0; 0; 0; 0; 0; 0; 0; 255; 255; 1; 2; 3; 4]
+    = Ok [58; 58; 102; 102; 102; 102; 58; 49; 46; 50; 46; 51; 46; 52]            (* ::ffff:1.2.3.4 *)
+  /\ ipv6_aton [58; 58] = Ok (repeat 0 16).
+Proof. repeat split; vm_compute; reflexivity. Qed.
 
 (* ------------------------------------------------------------------ RFC 3597 generic form *)
 
